@@ -50,7 +50,13 @@ func propRegistry() map[string]PropSpec {
 		"no eviction or purge of the entry during the run (purge: C18)",
 	}
 	add(PropSpec{
-		ID: "C01",
+		ID:    "C01",
+		Level: "model_checking",
+		Harnesses: []HarnessSpec{
+			// the middleware's part of single flight: only the fetcher completes a fetch; a request that was
+			// merely passed (hit-for-pass) never changes the entry, so it cannot end another request's fetch
+			{Pkg: "server", Fn: "Harness_MW_pass_leaves_entry", Init: []string{"util", "store", "compress", "cache", "location", "upstream", "server"}, Reach: []string{"MW.pass.end", "MW.pass.nested"}},
+		},
 		BMC: []BMCSpec{
 			{Name: "entry3", Pkg: "cache", Fn: "Harness_BMC_entry3", Init: initCache, Only: []string{"C01.", "every-thread-completes", "race-free"}},
 			{Name: "store2", Pkg: "cache", Fn: "Harness_BMC_entry_store2", Init: initCache, Only: []string{"C01.", "every-thread-completes", "race-free"}},
@@ -87,6 +93,7 @@ func propRegistry() map[string]PropSpec {
 			{Pkg: "cache", Fn: "Harness_C20_entry_discipline", Init: initCache, Reach: []string{"C20.entry-discipline.end"}, EngineOnly: true},
 			{Pkg: "cache", Fn: "Harness_C20_shard_discipline", Init: initCache, Reach: []string{"C20.shard-discipline.end"}, EngineOnly: true},
 			{Pkg: "server", Fn: "Harness_C20_server_discipline", Init: initServer, Reach: []string{"C20.server-discipline.end"}, EngineOnly: true},
+			{Pkg: "server", Fn: "Harness_C20_server_snapshots", Init: initServer, Reach: []string{"C20.server-snapshots.end"}},
 			{Pkg: "location", Fn: "Harness_C20_locations_discipline", Init: []string{"util", "location"}, Reach: []string{"C20.locations-discipline.end"}, EngineOnly: true},
 		},
 		BMC: []BMCSpec{
@@ -149,6 +156,7 @@ func propRegistry() map[string]PropSpec {
 			{Pkg: "server", Fn: "Harness_C06_methods", Init: initServer, Reach: []string{"C06.methods.end"}},
 			{Pkg: "cache", Fn: "Harness_C06_lookup", Init: initCache, Reach: []string{"C06.lookup.end"}, EngineOnly: true},
 			{Pkg: "cache", Fn: "Harness_C06_store_key", Init: initCache, Reach: []string{"C06.store-key.end"}},
+			{Pkg: "server", Fn: "Harness_C06_middleware_isolation", Init: []string{"util", "store", "compress", "cache", "location", "upstream", "server"}, Reach: []string{"C06.mw.end", "C06.mw.different", "C06.mw.hit-again"}, EngineOnly: true},
 		},
 		Explanation: "Symbolic execution of the real server.getKey on two arbitrary requests (method, host, request-URI as symbolic byte strings): equal keys imply equal triples (injectivity), the key buffer is fresh and exactly sized. The shard lookup (real dispatcher, groupcache/lru and container/list from SSA) is run with the hash function uninterpreted, i.e. for every hash function and therefore every collision pattern, on two arbitrary keys with evictions (two zones of one entry).",
 		Assumptions: []string{
@@ -182,6 +190,7 @@ func propRegistry() map[string]PropSpec {
 	add(PropSpec{
 		ID: "C08",
 		Harnesses: []HarnessSpec{
+			{Pkg: "cache", Fn: "Harness_C08_overlapping_saves", Init: initCache, Reach: []string{"C08.overlap.end", "C08.overlap.nested"}},
 			{Pkg: "cache", Fn: "Harness_C08_cacheable_restart", Init: initCache, Reach: []string{"C08.restart.expired", "C08.restart.restored", "C08.restart.uncommitted"}},
 			{Pkg: "cache", Fn: "Harness_C08_hitforpass_restart", Init: initCache, Reach: []string{"C08.hfp.lapsed", "C08.hfp.restored"}},
 			{Pkg: "cache", Fn: "Harness_C08_dispatcher_wiring", Init: initCache, Reach: []string{"C08.wiring.end"}},
@@ -222,6 +231,8 @@ func propRegistry() map[string]PropSpec {
 			{Pkg: "cache", Fn: "Harness_C10_get_faulty_store", Init: initCache, Reach: []string{"C10.miss", "C10.restored"}},
 			{Pkg: "cache", Fn: "Harness_C10_hitforpass_set_fault", Init: initCache, Reach: []string{"C10.hfp.end"}, EngineOnly: true},
 			{Pkg: "cache", Fn: "Harness_C10_purge_delete_fault", Init: initCache, Reach: []string{"C10.purge.end"}},
+			// slow store calls: a request that arrives while a purge's store.Delete is in progress
+			{Pkg: "cache", Fn: "Harness_C18_purge_racing_request", Init: initCache, Reach: []string{"C18.race.end"}},
 		},
 		BMC: []BMCSpec{
 			{Name: "store2", Pkg: "cache", Fn: "Harness_BMC_entry_store2", Init: initCache, Only: []string{"every-thread-completes", "no-panic", "C01.waiter"}},
@@ -246,6 +257,7 @@ func propRegistry() map[string]PropSpec {
 	add(PropSpec{
 		ID: "C12",
 		Harnesses: []HarnessSpec{
+			{Pkg: "compress", Fn: "Harness_C12_results_not_shared", Init: []string{"util", "compress"}, Reach: []string{"C12.not-shared.end"}},
 			{Pkg: "compress", Fn: "Harness_C12_gzip_wrapper", Init: []string{"util", "compress"}, Reach: []string{"C12.gzip.ok", "C12.gzip.write-error"}},
 			{Pkg: "compress", Fn: "Harness_C12_brotli_wrapper", Init: []string{"util", "compress"}, Reach: []string{"C12.br.ok", "C12.br.write-error"}},
 			{Pkg: "compress", Fn: "Harness_C12_service_levels", Init: []string{"util", "compress"}, Reach: []string{"C12.levels.end"}, EngineOnly: true},
@@ -276,14 +288,15 @@ func propRegistry() map[string]PropSpec {
 	add(PropSpec{
 		ID: "C05",
 		Harnesses: []HarnessSpec{
+			{Pkg: "server", Fn: "Harness_C05_responder", Init: initServer, Reach: []string{"C05.responder.end", "C05.responder.served"}},
 			{Pkg: "cache", Fn: "Harness_C13_table", Init: initCache, Reach: []string{"C13.row3to6"}, EngineOnly: true},
 			{Pkg: "cache", Fn: "Harness_C13_cacheable", Init: initCache, Reach: []string{"C13.cacheable.compressible"}, EngineOnly: true},
 			{Pkg: "cache", Fn: "Harness_C05_new_response", Init: initCache, Reach: []string{"C05.new.end"}, EngineOnly: true},
 			{Pkg: "cache", Fn: "Harness_C08_cacheable_restart", Init: initCache, Reach: []string{"C08.restart.restored"}},
 		},
 		Explanation: "Partial (modulo codec contracts): for every upstream encoding (identity, gzip, br, lz4, zst, snz), every stored-variant subset and every listed client Accept-Encoding, the body pike returns decodes (per the returned Content-Encoding) to exactly the upstream's decoded body, the encoding is one the client accepts or identity, the status code and end-to-end headers are preserved and the four hop/representation headers dropped, serving never mutates the stored entry, and an entry restored from the store is unaltered. Content-Length on the wire and the real codecs are outside the claim.",
-		Assumptions: append(append([]string{}, codecAssume...), "Content-Length is written by elton/net/http after pike's code: not encodable", "waiters and hits receive the very response object the fetcher stored (BMC, C02)"),
-		Encoded:     []string{"cache.NewHTTPResponse", "cache.cloneHeaderAndIgnore", "cache.(*HTTPResponse).getBodyByAcceptEncoding", "cache.(*HTTPResponse).GetRawBody", "cache.(*HTTPResponse).Compress", "compress.(*compressSrv).Decompress"},
+		Assumptions: append(append([]string{}, codecAssume...), "Content-Length is written by elton/net/http after pike's code: not encodable", "the last hop (server.NewResponder + (*HTTPResponse).Fill on the real elton context) is decided for an identity client, four labels, ages -1/0/1/59 and a response with repeated header fields (all values must arrive, in order)", "waiters and hits receive the very response object the fetcher stored (BMC, C02)"),
+		Encoded:     []string{"cache.NewHTTPResponse", "cache.cloneHeaderAndIgnore", "cache.(*HTTPResponse).getBodyByAcceptEncoding", "cache.(*HTTPResponse).GetRawBody", "cache.(*HTTPResponse).Compress", "compress.(*compressSrv).Decompress", "cache.(*HTTPResponse).Fill", "server.NewResponder"},
 		Bounds:      map[string]string{"body": "0..8 bytes (symbolic length)", "upstream encodings": "6"},
 	})
 
@@ -323,10 +336,11 @@ func propRegistry() map[string]PropSpec {
 			{Pkg: "server", Fn: "Harness_C16_server_update", Init: initServer, Reach: []string{"C16.server.end"}},
 			{Pkg: "server", Fn: "Harness_C16_servers_reset", Init: initServer, Reach: []string{"C16.servers.end"}, EngineOnly: true},
 			{Pkg: "cache", Fn: "Harness_C16_dispatchers_reset", Init: initCache, Reach: []string{"C16.caches.end"}},
+			{Pkg: "upstream", Fn: "Harness_C19_reset", Init: []string{"util", "upstream"}, Reach: []string{"C19.reset.end"}, EngineOnly: true},
 		},
 		Explanation: "Partial: differential symbolic execution per registry. Compress profiles: for two successive symbolic configurations (profile p and bestCompression each present or not, each level set or unset with any int32 value) the levels of every profile a request can resolve equal those of a registry freshly built from the final configuration. Servers: a server updated in place (every option field symbolic, incl. unset) equals NewServer of the same option through GetCache/GetLocations/GetCompress; the server registry after Reset equals a fresh one and removed servers are closed. Caches: surviving dispatchers are the same objects (entries retained), removed ones gone, new ones present.",
 		Assumptions: []string{
-			"listening sockets, behaviour during an update under traffic, upstream replacement (dials, health-check goroutines) and the file/etcd watcher are outside the claim (OS / network behaviour)",
+			"listening sockets, behaviour during an update under traffic and the file/etcd watcher are outside the claim (OS / network behaviour); of the upstream registry's replacement only the registry itself is decided (Harness_C19_reset: same name replaced, removed gone, old health checkers stopped, and an upstream that stays configured is found by a request at every health-check point inside Reset), not dials or the checker goroutines",
 			"(*server).Close is a counting stub (elton.GracefulClose / net.Listener are not encodable); goroutines spawned by Reset are run to completion before the comparison",
 			"profiles that the final configuration no longer names are not compared: config validation guarantees no server can resolve them (removed profiles are deliberately kept by pike, pinned by its tests)",
 			"restart-only settings (log format, listener address) are not compared",
@@ -340,11 +354,12 @@ func propRegistry() map[string]PropSpec {
 		Harnesses: []HarnessSpec{
 			{Pkg: "server", Fn: "Harness_C17_apply_resolves", Init: initServer, Reach: []string{"C17.applied.end", "C17.applied.server"}},
 			{Pkg: "config", Fn: "Harness_C17_validate", Init: []string{"util", "config"}, Reach: []string{"C17.accepted", "C17.rejected"}},
+			{Pkg: "config", Fn: "Harness_C17_saved_fields", Init: []string{"util", "config"}, Reach: []string{"C17.saved-fields.end"}, EngineOnly: true},
 		},
 		Explanation: "Partial: symbolic execution of the real (*PikeConfig).Validate cross-reference loops on configurations with 1-2 upstreams, 1-2 locations, 0-1 caches, 0-1 compress profiles and a server with 0-2 location names, every name a symbolic letter (so dangling, duplicate and unset references all occur). Accepted => every location names an existing upstream and the server names existing locations, cache and compress profile; every closed, well-formed configuration is accepted. The reflection-driven struct validator is a stub whose contract (required / gt=0 / dive) is read from the struct tags of the current config.go at run time.",
 		Assumptions: []string{
 			"go-playground/validator implements its documented tags; only required, gt=0 and dive are modelled, string well-formedness tags (xName, xDuration, url, hostname, ...) are library predicates outside the claim",
-			"'saving then reading returns the same configuration' and YAML quoting (gopkg.in/yaml.v2, reflection-driven) are outside the claim",
+			"'saving then reading returns the same configuration' and YAML quoting (gopkg.in/yaml.v2, reflection-driven) are outside the claim; only a structural obligation is decided (not by the solver: a scan of the current SSA and struct tags): every config field that pike's apply path reads has a yaml key of its own (not \"-\", not shared)",
 			"that an accepted configuration resolves at run time: Harness_C17_apply_resolves applies two closed configurations in sequence through cache.ResetDispatchers / location.Reset / server.Reset (as main.update does; compress and upstream registries are C16's and C19's) and requires every configured server to find its dispatcher and a location; the request path itself is C15",
 		},
 		Encoded: []string{"config.(*PikeConfig).Validate", "server.(*servers).Reset", "server.(*server).Update", "cache.ResetDispatchers", "location.(*Locations).Set"},
@@ -388,6 +403,8 @@ func propRegistry() map[string]PropSpec {
 	add(PropSpec{
 		ID: "C11",
 		Harnesses: []HarnessSpec{
+			// the size bound under concurrent hits rests on every access to a shard's lru (incl. the move-to-front of a lookup) holding the shard lock in write mode
+			{Pkg: "cache", Fn: "Harness_C20_shard_discipline", Init: initCache, Reach: []string{"C20.shard-discipline.end"}, EngineOnly: true},
 			{Pkg: "cache", Fn: "Harness_C11_arith", Init: initCache, Reach: []string{"C11.arith.end"}},
 			{Pkg: "cache", Fn: "Harness_C11_lru", Init: initCache, Reach: []string{"C11.lru.end"}, EngineOnly: true},
 		},
